@@ -55,7 +55,7 @@ func goodIRI(s string) bool {
 			return false
 		}
 	}
-	nh, nq := 0, 0
+	nh := 0
 	for _, c := range s {
 		if c <= 0x20 || strings.ContainsRune("<>\"{}|\\^`", c) {
 			return false
@@ -63,11 +63,8 @@ func goodIRI(s string) bool {
 		if c == '#' {
 			nh++
 		}
-		if c == '?' {
-			nq++
-		}
 	}
-	return nh <= 1 && nq <= 1
+	return nh <= 1
 }
 
 func (h *harness) genIRI(o dsOpts) string {
